@@ -132,7 +132,7 @@ macro_rules! errty { ($n:ident) => {
     impl ::core::fmt::Display for $n { fn fmt(&self, f: &mut ::core::fmt::Formatter<'_>) -> ::core::fmt::Result { write!(f, stringify!($n)) } }
     impl StdError for $n {}
 } }
-errty!(E0); errty!(E1); errty!(E2);
+errty!(E0); errty!(E1); errty!(E2); errty!(E9);
 pub type BoxErr = Box<dyn StdError + Send + Sync + 'static>;
 pub fn src_adr(e: &dyn StdError) -> Option<usize> { e.source().map(|s| adr(s)) }
 '''
@@ -148,7 +148,7 @@ def tyname_b(f, i, mode):
     return "E%d" % i
 
 
-def runtime_case(cid, named, fields, container, mode, want):
+def runtime_case(cid, named, fields, container, mode, want, shape="pre_post"):
     n = len(fields)
     gen = ""
     inst = ""
@@ -172,7 +172,11 @@ def runtime_case(cid, named, fields, container, mode, want):
         access = lambda i: "s.%s" % names[i]
         bind = ""
     else:
-        decl = "pub enum S%s { Pre, V %s, Post { other: i32 } }" % (gen, body)
+        decl = {"pre_post": "pub enum S%s { Pre, V %s, Post { other: i32 } }",
+                "alone": "pub enum S%s { V %s }",
+                "with_ignored": "pub enum S%s { V %s, #[error(ignore)] Ign(E9) }",
+                "ignored_first": "pub enum S%s { #[error(ignore)] Ign { source: E9 }, V %s }",
+                "two_sourced": "pub enum S%s { V %s, W { source: E9 } }"}[shape] % (gen, body)
         ctor = ("S::V { %s }" % ", ".join("%s: %s" % (a, v) for a, v in zip(names, vals))) if named else "S::V(%s)" % ", ".join(vals)
         pats = ["p%d" % i for i in range(n)]
         pat = ("S::V { %s }" % ", ".join("%s: %s" % (a, p) for a, p in zip(names, pats))) if named else "S::V(%s)" % ", ".join(pats)
@@ -186,8 +190,15 @@ def runtime_case(cid, named, fields, container, mode, want):
             expect = "Some(adr(&*%s))" % access(want) if container == "struct" else "Some(adr(&**p%d))" % want
     lines = ["let s: S%s = %s;" % (inst, ctor), bind,
              'r.eq("source() is exactly the selected field", src_adr(&s), %s);' % expect]
-    if container == "enum":
-        lines.append('r.eq("other variants have no source", (src_adr(&S%s::Pre), src_adr(&S%s::Post { other: 1 })), (None, None));' % (inst if not inst else "::" + inst, inst if not inst else "::" + inst))
+    tf = inst if not inst else "::" + inst
+    if container == "enum" and shape == "pre_post":
+        lines.append('r.eq("other variants have no source", (src_adr(&S%s::Pre), src_adr(&S%s::Post { other: 1 })), (None, None));' % (tf, tf))
+    elif container == "enum" and shape == "with_ignored":
+        lines.append('r.eq("an ignored variant has no source", src_adr(&S%s::Ign(E9(9))), None);' % tf)
+    elif container == "enum" and shape == "ignored_first":
+        lines.append('r.eq("an ignored variant has no source", src_adr(&S%s::Ign { source: E9(9) }), None);' % tf)
+    elif container == "enum" and shape == "two_sourced":
+        lines.append('{ let w = S%s::W { source: E9(9) }; let a = match &w { S::W { source } => adr(source), _ => unreachable!() }; r.eq("the sibling variant has its own source", src_adr(&w), Some(a)); }' % tf)
     disp = "impl%s ::core::fmt::Display for S%s { fn fmt(&self, f: &mut ::core::fmt::Formatter<'_>) -> ::core::fmt::Result { write!(f, \"S\") } }" % (gen, gen)
     dbg = "impl%s ::core::fmt::Debug for S%s { fn fmt(&self, f: &mut ::core::fmt::Formatter<'_>) -> ::core::fmt::Result { write!(f, \"S\") } }" % (gen, gen)
     mod = """use super::*;
@@ -199,7 +210,7 @@ pub fn run(r: &mut R) {
     %s
 }""" % (decl, disp, dbg, "\n    ".join(l for l in lines if l))
     src = "#[derive(Error)] " + " ".join(decl.split())
-    return Case(cid, mod, meta={"src": src, "mode": mode, "want": want})
+    return Case(cid, mod, meta={"src": src, "mode": mode if shape == "pre_post" else mode + "/" + shape, "want": want})
 
 
 def run(chk, tier):
@@ -269,6 +280,10 @@ def run(chk, tier):
                 if mode == "generic" and n == 0:
                     continue
                 cases.append(runtime_case("c%d" % len(cases), named, fields, container, mode, wsrc))
+                # sibling variants: none, an ignored one (after / before), one with a source of its own
+                if container == "enum" and mode in ("plain", "generic") and (n <= 2 or thorough):
+                    for shape in ("alone", "with_ignored", "ignored_first", "two_sourced"):
+                        cases.append(runtime_case("c%d" % len(cases), named, fields, container, mode, wsrc, shape=shape))
     eng = CompileEngine("C09", prelude=PRELUDE, per_bin=max(8, len(cases) // 16 + 1))
     results = eng.run_cases(cases)
     for c in cases:
@@ -286,7 +301,7 @@ def run(chk, tier):
         else:
             chk.violation("wrong source at run time %s" % c.meta["mode"], c.meta["src"], r.detail)
     chk.part("B_runtime_stable", programs=len(cases), bins_built=eng.bins_built, rounds=eng.rounds, build_s=round(eng.build_s, 1),
-             note="layouts without a detected backtrace (a `provide` method needs nightly); field types: distinct error types, Box<dyn Error+Send+Sync>, generic T: Error")
+             enum_shapes=["Pre / V / Post", "V alone", "V + ignored variant", "ignored variant + V", "V + variant with its own source"], note="layouts without a detected backtrace (a `provide` method needs nightly); field types: distinct error types, Box<dyn Error+Send+Sync>, generic T: Error")
     # ---------------- seam B on nightly: layouts with a detected backtrace (their `provide` method needs an unstable feature)
     if thorough:
         ncases = []
